@@ -12,38 +12,61 @@ CONFIG = {
                 "coordinator owner/not owner, sampled for 4-5 owners and the full environment product. The REQUESTED level: for every byte string, "
                 "models.ParseConsistencyLevel accepts it iff it is an ASCII spelling in any letter case of any/one/quorum/all and then means that level; absent/empty means one "
                 "(requested_level_exact, requested_level_case_insensitive); that both write handlers start from ConsistencyLevelOne and pass a non-empty parameter to the parser is re-derived from handler.go each run; "
-                "the real parser is run on spellings, near misses and non-ASCII strings (Kelvin sign, dotted I, full-width letters).",
+                "the real parser is run on spellings, near misses and non-ASCII strings (Kelvin sign, dotted I, full-width letters). "
+                "BATCH level (WritePointsPrivilegedWithContext, theories/C03/Batch.v): for every number of shards, each with its own owners/environment/shard-not-found path and its own owner arrival order, "
+                "every arrival order of the shard results (Permutation), every number of dropped points and every point at which PointsWriter.Close is seen: success is told only if EVERY shard met the level, "
+                "nothing was dropped and no Close was seen (batch_success_sound), and is told then (batch_success_complete); a reported error is the value of the FIRST shard in arrival order that did not meet "
+                "the level, or the dropped-points PartialWriteError only when every shard met it, or closing (batch_error_is_some_shards_error); the writes / CreateShard calls / handoff offers at every owner "
+                "of every shard are those of the single-shard run whatever the other shards do and whenever the batch loop returns (batch_hh_independent); the model is diffed against the real PointsWriter with "
+                "gated fakes over 0-4 shards in all shard release orders, with dropped points and Close during the wait. "
+                "HINTED-HANDOFF ANSWER (theories/C03/Handoff.v): result classes of hh.Service.WriteShard re-derived from the source; accepted iff enabled and the block fits under max-size "
+                "(handoff_accept_iff_fits); for every sequence of writes a reported success was received by some owner's store or - only under any - its block is in some owner's queue afterwards "
+                "(handoff_success_means_stored_or_queued); run against the REAL hh.Service (small max-size) under the real PointsWriter, queues drained after closing the service. "
+                "REMOTE PATH (theories/C03/Remote.v): for every script of node behaviours (timely/late/missing replies, hang-ups) every write reads its own reply (remote_success_is_own_ack), "
+                "keeping the connection after a read timeout is refuted (remote_keep_connection_refuted); run against the REAL coordinator.ShardWriter + connection pool and a scripted in-process TCP node "
+                "under the real PointsWriter: success reported => that write was stored and acknowledged by the node.",
         "note": "Trusts Coq kernel, genconsts, the harness (arrival order enforced by observing goroutine states via runtime.Stack; timeout runs are "
-                "validated and repeated when the timer could have fired early). hh.Service/queue internals are C04, the HTTP layer and multi-shard "
-                "fan-out of WritePointsPrivileged are not modelled; w.closing (shutdown) is not modelled.",
+                "validated and repeated when the timer could have fired early; remote cases repeated with a 3x larger read timeout when a timely reply was slower than the timeout). "
+                "Queue file format/segments/crash behaviour of hh are C04 (only the accept/refuse answer and the presence of accepted blocks after a drain are checked here); the wire format and "
+                "request/response pairing under concurrency are C15; the HTTP layer above the level parameter, MapShards' point-to-shard hashing and subscriber delivery are not modelled; w.closing inside "
+                "writeToShardWithContext is modelled only through the batch loop (both return ErrWriteFailed).",
         "technique": "Coq proof (induction over the answer list, Permutation invariance) on a Gallina model + exhaustive/sampled differential run against the real PointsWriter",
     },
     "harness": "h_c03",
     "level": "proof",
-    "extra_proof_files": ["LevelProofs"],
+    "extra_proof_files": ["LevelProofs", "BatchProofs", "HandoffProofs"],
     "n": {"quick": 2000, "thorough": 40000},
     "shard": 1100,
     "search_rounds": 1,
     "search_boost": 2,
     "harness_timeout": {"quick": 900, "thorough": 3000},
-    "rule": "designed cases (no owners; all owners behind non-empty queues / retryable with each handoff flavour; both permanent-rejection wordings; "
+    "rule": "kind hh: designed (one dead owner, 6 writes under any/one, max-size 0..400 bytes; disabled service; three owners mixed) then seeded sequences of 2-8 writes, 1-3 owners, max-size mostly < 420 bytes, "
+            "levels biased to any, 1-3 points per write; kind remote: 14 designed scripts (late ack followed by error/silence/ack, hang-up, ...) then seeded scripts of 2-4 requests; "
+            "kind batch: designed (no points, only dropped points, shard without owners, ok+failing shard in both orders, Close after 0/1/2 shards, silent-owner shard + failing shard, per-shard shard-not-found paths) "
+            "then EXHAUSTIVE two shards x 6 shard templates each x both release orders x 4 levels x dropped 0/1 x Close never/0/1, three shards x all 6 release orders over sampled (thorough: all) template triples, "
+            "then seeded batches of 1-4 shards with 1-3 owners each over the full environment product, random owner/shard orders, dropped points, Close; kind write: designed cases (no owners; all owners behind non-empty queues / retryable with each handoff flavour; both permanent-rejection wordings; "
             "local ErrShardNotFound -> CreateShard ok/fail) then EXHAUSTIVE enumeration: owners n=1,2,3 x coordinator {not an owner, first owner} (n<=2 and thorough tier: every position) "
             "x levels {any,one,quorum,all} x 7^n named scenarios (stored, retryable+hh accepted, retryable+hh refused, permanent rejection, queue non-empty+"
             "accepted, queue non-empty+refused, no answer) x every arrival order of the answering owners; the same with AllowOutOfOrderWrites for n<=2; "
             "then seeded samples with 1..5 owners (half with 4) over the full environment product incl. ErrQueueBlocked refusals, out-of-order mode, "
             "shard-not-found path, random coordinator position. distinct = distinct input; non-trivial = >=2 owners or an owner that is not simply stored",
     "trusted_base": [
-        "C03: fakes stand for TSDBStore / ShardWriter / HintedHandoff / MetaClient: an owner's 'stored' and 'queued' are what the fake returned nil for; hh.Service and the queue files are covered by C04, shard_writer.go's network path is not exercised",
+        "C03: in kinds write/batch fakes stand for TSDBStore / ShardWriter / HintedHandoff / MetaClient: an owner's 'stored' and 'queued' are what the fake returned nil for; kind hh runs the real hh.Service (queues drained through hh's own queue code after Close, via the committed verif_export wrappers of services/hh); kind remote runs the real ShardWriter/pool against a scripted TCP node (stored = the node received that request and its script says store+ack)",
+        "C03: batch schedules: shards are released one after the other; a shard whose wait ends in ErrTimeout is taken to send its value after all shards released in time (shared WriteTimeout), runs with a silent owner are accepted only if everything requested happened before t0+WriteTimeout, else repeated with a 4x larger timeout; ErrWriteFailed from closing and from a shard without successful owner are the same value and not distinguished",
+        "C03: shape of the two hh refusals (Service.WriteShard !Enabled, queue.Append size limit -> ErrQueueFull), footerSize, and 'a failed ReadTLVT marks the connection unusable' in ShardWriter.WriteShardBinary are re-derived from the source by genconsts on every run",
         "C03: arrival order is enforced by releasing one gated owner at a time and waiting (runtime.Stack) until its goroutine is gone and the collecting goroutine is parked in select; runs ending in ErrTimeout are accepted only if all released answers were consumed before t0+WriteTimeout, else repeated with a 4x larger timeout",
         "C03: models.ConsistencyLevel values are regenerated from models/consistency.go by genconsts on every run; the harness passes the named constants",
         "C03: hh.IsRetryable is exercised through the real function (error texts 'field type conflict' / 'partial write' = permanent); the skip test uses the real hh.ErrQueueBlocked / ErrHintedHandoffQueueNotEmpty values",
     ],
     "modelled": "coordinator/points_writer.go writeToShardWithContext (required, per-owner goroutine incl. local ErrShardNotFound/CreateShard retry, "
-                "AllowOutOfOrderWrites, hinted-handoff paths, result loop, timeout, classification) is modelled in theories/C03/Model.v; MapShards, the "
-                "per-shard fan-out and subscriber delivery of WritePointsPrivilegedWithContext, w.closing, statistics counters and logging are executed by "
-                "the harness but not modelled; shard_writer.go (network), services/hh internals and the HTTP handler's level parsing are not modelled",
+                "AllowOutOfOrderWrites, hinted-handoff paths, result loop, timeout, classification) is modelled in theories/C03/Model.v; the per-shard fan-out and the combining loop of "
+                "WritePointsPrivilegedWithContext (first non-nil value in arrival order, dead ErrShardDeletion conversion, dropped-points PartialWriteError, w.closing) in Batch.v; the answer classes of "
+                "hh.Service.WriteShard and the max-size branch of queue.Append in Handoff.v; ShardWriter.WriteShardBinary's use of the connection pool (reuse, discard after a failed read) for a sequential caller in Remote.v; "
+                "models.ParseConsistencyLevel in Level.v. Executed by the harness but not modelled: MapShards (point -> shard group/shard), subscriber delivery, statistics counters, logging, the closing case inside "
+                "writeToShardWithContext, hh segment files and the retry/purge loops (C04), TLV/protobuf framing and concurrent use of the pool (C15)",
     "assumptions": ["answers that arrive before the timer fires are consumed before it (Go select picks randomly when both are ready: that race is outside the model)",
-                    "one shard per write; owners' node ids are what meta reports; the write is not concurrent with PointsWriter.Close"],
+                    "a shard goroutine's value that is ready together with w.closing may or may not be consumed (Go select): both are behaviours of the model (close point k), the harness only realises quiescent ones",
+                    "owners' node ids are what meta reports; hinted-handoff queues are not drained during a kind-hh sequence (owners down); the remote model is for a sequential caller (one write at a time per node)"],
 }
 
 
